@@ -944,8 +944,14 @@ impl<'a> Compiler<'a> {
                 self.push_instruction(Instruction::PopTable);
             }
             CardBody::DynamicCall(jump) => {
-                self.compile_subexpr(jump.args.0.as_slice())?;
-                self.current_index.push_subindex(jump.args.0.len() as u32);
+                // child numbering of `Card::get_child`: the function is child 0, the arguments
+                // follow (they are still evaluated first)
+                for (i, card) in jump.args.0.iter().enumerate() {
+                    self.current_index.push_subindex(i as u32 + 1);
+                    self.process_card(card)?;
+                    self.current_index.pop_subindex();
+                }
+                self.current_index.push_subindex(0);
                 self.process_card(&jump.function)?;
                 self.current_index.pop_subindex();
                 self.push_instruction(Instruction::CallFunction);
